@@ -257,6 +257,24 @@ fn ransac(c: &P2, r: f64, n_in: usize, in_angles: &[f64], outliers: &[P2], limit
     cx.label("ransac");
     let c0 = pt2(c);
     let n_in = n_in.min(in_angles.len());
+    // the statement quantifies over arcs of at least 60 degrees: the inliers must span that much and must not be a few
+    // positions repeated (three coincident points define no circle, and a seeded sampler that draws mostly duplicates
+    // cannot be expected to find the generating one)
+    {
+        let mut a: Vec<f64> = in_angles[..n_in].iter().map(|t| t.rem_euclid(std::f64::consts::TAU)).collect();
+        a.sort_by(|x, y| x.partial_cmp(y).unwrap());
+        let mut distinct = 1;
+        let mut largest_gap = a[0] + std::f64::consts::TAU - a[a.len() - 1];
+        for w in a.windows(2) {
+            if w[1] - w[0] > 0.02 {
+                distinct += 1;
+            }
+            largest_gap = largest_gap.max(w[1] - w[0]);
+        }
+        if std::f64::consts::TAU - largest_gap < 1.05 || 2 * distinct < n_in {
+            return Verdict::Discard("inliers do not span 60 degrees with mostly distinct positions");
+        }
+    }
     let mut pts: Vec<Point2> = in_angles[..n_in].iter().map(|t| c0 + engeom::Vector2::new(t.cos(), t.sin()) * r).collect();
     let n_out = outliers.len().min(n_in);
     for o in &outliers[..n_out] {
